@@ -239,7 +239,7 @@ _cmd_counter = [0]
 
 
 def run_cmd(cwd, args, plan=None, gc=None, streams="pipes", timeout=20, dump=False, binary=None,
-            extra_env=None, during=None, nofile=None):
+            extra_env=None, during=None, nofile=None, gone_cwd=False):
     """Run one mscript CLI process inside the simulated world.  `plan` fixes every
     environment decision of the shim; `gc` = "<seed>:<ppm>" fixes the collector schedule.
     streams: "pipes" (stdout and stderr separate), "one" (both into one pipe).
@@ -271,12 +271,19 @@ def run_cmd(cwd, args, plan=None, gc=None, streams="pipes", timeout=20, dump=Fal
         env.update(extra_env)
     argv = [binary or MSCRIPT] + list(args)
     pre = None
-    if nofile:
-        # a low limit on open descriptors (RLIMIT_NOFILE) for this process only
+    if nofile or gone_cwd:
+        # nofile: a low limit on open descriptors (RLIMIT_NOFILE) for this process only
+        # gone_cwd: the process starts in a directory that has been removed (getcwd fails); the caller names files absolutely
         import resource
+        gone = os.path.join(worker_dir(), "gone%d" % n)
 
         def pre():
-            resource.setrlimit(resource.RLIMIT_NOFILE, (nofile, nofile))
+            if gone_cwd:
+                os.mkdir(gone)
+                os.chdir(gone)
+                os.rmdir(gone)
+            if nofile:
+                resource.setrlimit(resource.RLIMIT_NOFILE, (nofile, nofile))
     t0 = time.time()
     stalled = None
     if during is not None:
@@ -337,6 +344,24 @@ def run_cmd(cwd, args, plan=None, gc=None, streams="pipes", timeout=20, dump=Fal
         except FileNotFoundError:
             pass
     return res
+
+
+PROFILE_REPORT = None
+
+
+def strip_profile(out):
+    """Program output without the report `run --profile` appends to it: the report follows after one empty line, and may
+    be wrapped in colour escapes when colours are forced."""
+    import re
+    global PROFILE_REPORT
+    if PROFILE_REPORT is None:
+        PROFILE_REPORT = re.compile(rb"(?:\x1b\[[0-9;]*m)*\n(?:\x1b\[[0-9;]*m)*Runtime Profile:")
+    is_str = isinstance(out, str)
+    b = out.encode("utf-8", "surrogateescape") if is_str else out
+    hits = list(PROFILE_REPORT.finditer(b))
+    if hits:
+        b = b[:hits[-1].start()]
+    return b.decode("utf-8", "surrogateescape") if is_str else b
 
 
 def worker_dir(name="w"):
